@@ -80,8 +80,33 @@ impl<'w, 's> AllReaders<'w, 's>
         if let Ok(e) = self.ra.get() { r.push(Item::Rem(0, map_entity(e))); }
         if let Ok(e) = self.rb.get() { r.push(Item::Rem(1, map_entity(e))); }
         if let Ok(e) = self.d.get() { r.push(Item::Desp(map_entity(e))); }
-        // consistency of the convenience accessors with the primary ones
-        debug_assert_eq!(self.b0.is_empty(), self.b0.try_read().is_err());
+        // the convenience accessors (`read`, `entity`, `get_entity`, `is_empty`) must tell the same story as the
+        // primary ones; a disagreement is reported as an item no event can explain
+        let mut bad = |k: u8, ok: bool| { if !ok { r.push(Item::Wrong(100 + k)); } };
+        macro_rules! bcast { ($k:expr, $rd:expr) => {
+            match $rd.try_read() { Ok(p) => bad($k, !$rd.is_empty() && $rd.read().id == p.id), Err(_) => bad($k, $rd.is_empty()) }
+        } }
+        bcast!(0, self.b0);
+        bcast!(1, self.b1);
+        macro_rules! eev { ($k:expr, $rd:expr) => {
+            match $rd.try_read()
+            {
+                Ok((e, p)) => bad($k, !$rd.is_empty() && $rd.read().0 == e && $rd.read().1.id == p.id && $rd.entity() == e && $rd.get_entity().ok() == Some(e)),
+                Err(_) => bad($k, $rd.is_empty() && $rd.get_entity().is_err()),
+            }
+        } }
+        eev!(2, self.e0);
+        eev!(3, self.e1);
+        macro_rules! ent { ($k:expr, $rd:expr) => {
+            match $rd.get() { Ok(e) => bad($k, !$rd.is_empty() && $rd.entity() == e), Err(_) => bad($k, $rd.is_empty()) }
+        } }
+        ent!(4, self.ia);
+        ent!(5, self.ib);
+        ent!(6, self.ma);
+        ent!(7, self.mb);
+        ent!(8, self.ra);
+        ent!(9, self.rb);
+        ent!(10, self.d);
         (r, second_ok)
     }
 }
